@@ -248,7 +248,22 @@ def run(tier):
         body = t["text"].rstrip("\n \t")
         for j, tail in enumerate(["", " ", "\n\n\t", " ; the end", "\n; é last comment, no line break", "\n;", " ;\n;"]):
             extra.append(dict(t, variant=["eof", j, 0], text=body + tail))
-    texts = texts + extra
+    # declarations as the very last thing of the text (no line break after them): `global NAME`, with a quantifier, with a default;
+    # an `inherit` directive; expected AST = the original one plus the declaration
+    tails = []
+    for t in texts:
+        if t["variant"][0] != "canonical":
+            continue
+        body = t["text"].rstrip("\n \t")
+        row = body.count("\n") + 1
+        for j, (decl, g) in enumerate([("global tail-g", {"name": "tail-g", "q": "one", "has_default": False, "default": ""}),
+                                       ("global tail_q?", {"name": "tail_q", "q": "opt", "has_default": False, "default": ""}),
+                                       ("global tail_l*", {"name": "tail_l", "q": "star", "has_default": False, "default": ""}),
+                                       ("global tail_d = \"v\"", {"name": "tail_d", "q": "one", "has_default": True, "default": "v"}),
+                                       ("global  tail_s", {"name": "tail_s", "q": "one", "has_default": False, "default": ""})]):
+            col = 7 + (1 if decl.startswith("global  ") else 0)
+            tails.append(dict(t, variant=["tail", j, 0], text=body + "\n" + decl, extra_global=dict(g, loc=[row, col])))
+    texts = texts + extra + tails
     tin, tout = os.path.join(d, "texts.ndjson"), os.path.join(d, "parsed.ndjson")
     C.write_ndjson(tin, [{"id": t["id"], "variant": t["variant"], "text": t["text"]} for t in texts])
     p = subprocess.run([C.TSGV, "parse", tin, tout], stdout=subprocess.PIPE, stderr=subprocess.DEVNULL, text=True, timeout=3400)
@@ -263,6 +278,8 @@ def run(tier):
     for t, pr in zip(texts, parsed):
         pos = {x[0]: [x[1], x[2]] for x in t["locs"]}
         want = substitute(by_id[t["id"]]["prog"], pos)
+        if t.get("extra_global"):
+            want["globals"] = want["globals"] + [t["extra_global"]]
         stats2["locations_compared"] += len(pos)
         payload = {"property": PROP, "ast_id": t["id"], "variant": t["variant"], "dsl_text": t["text"], "expected_ast": want, "parser": pr["r"]}
         sig = {"observed": pr["r"]["status"], "msg": pr["r"].get("msg", ""), "text": t["text"]}
